@@ -58,6 +58,18 @@ var c07Templates = []c07Tpl{
 		marks:  []string{"func mkOrder", "func cityOf("},
 		extra:  "let zipOf (o:Order) =\n  o.Ship.Zip + two ()\n",
 	},
+	{
+		// an instance of a generic record; the unrelated neighbour is a non-generic record whose
+		// name spells that instance the way internal table keys do (GBox_int)
+		deps: []string{
+			"type GBox<T> = {Value: T}\n",
+			"let one () =\n  1\n",
+			"let two () =\n  2\n",
+		},
+		target: "let getv (b: GBox<int>) =\n  b.Value + one ()\n\nlet mkv (a:int) =\n  {Value=a}\n",
+		marks:  []string{"func getv(", "func mkv("},
+		extra:  "type GBox_int = {Value: string; Extra: int}\n\nlet label (x: GBox_int) =\n  x.Value\n",
+	},
 }
 
 // renumber compiler temporaries _vN by first occurrence
@@ -322,8 +334,8 @@ func Harness_C07_PackageInfoNames() {
 		verifAssert(ok, "target found in the baseline output")
 		want = append(want, w)
 	}
-	tys := [][]string{{"Rec", "Uni"}, {"Pt", "Pt"}, {"Leaf", "Leaf"}, {"Order", "Addr"}}[t]
-	fns := [][]string{{"helper", "width"}, {"idf", "cst"}, {"one", "two"}, {"one", "two"}}[t]
+	tys := [][]string{{"Rec", "Uni"}, {"Pt", "Pt"}, {"Leaf", "Leaf"}, {"Order", "Addr"}, {"GBox", "GBox"}}[t]
+	fns := [][]string{{"helper", "width"}, {"idf", "cst"}, {"one", "two"}, {"one", "two"}, {"one", "two"}}[t]
 	var pi string
 	switch verifChoice("kind", 3) {
 	case 0: // external types
